@@ -153,6 +153,9 @@ def check_records(recorder, rng, max_tids=64, replay_allocs=False):
     for n, t in ks["scalars"]:
       if n in r["before"] and not isinstance(r["before"][n], np.ndarray):
         v = r["before"][n]
+        import enum
+        if isinstance(v, enum.Enum):
+          v = int(v.value)   # IntFlag results (flags & DisableBit.X) have __len__ on Python >= 3.11 but are scalars
         if hasattr(v, "__len__") and not isinstance(v, (str, bytes)):
           k = comp.get(n, 0)
           comp[n] = k + 1
